@@ -196,22 +196,31 @@ func gen(r *lib.Rand, tier, stream string, i int) History {
 		}
 		return 1 + r.Intn(sh.dseq-1)
 	}
-	pickM := func(d int) int {
-		switch r.Weighted(30, 1, 1, 1) {
-		case 1:
-			return sh.mseq + r.Intn(2)
-		case 2:
-			return 0
-		case 3:
-			return -1 - r.Intn(2)
+	// a token to pick: mostly an existing (class, token) pair, sometimes a mismatched / future / blank / bogus one
+	pickToken := func() (int, int) {
+		var all [][2]int
+		for d := 1; d < sh.dseq; d++ {
+			for _, m := range sh.mts[d] {
+				all = append(all, [2]int{d, m})
+			}
 		}
-		if ms := sh.mts[d]; len(ms) > 0 && r.Chance(19, 20) {
-			return ms[r.Intn(len(ms))]
+		if len(all) > 0 && r.Chance(11, 12) {
+			x := all[r.Intn(len(all))]
+			return x[0], x[1]
+		}
+		d := pickD()
+		switch r.Weighted(3, 1, 1, 1) {
+		case 1:
+			return d, sh.mseq + r.Intn(2)
+		case 2:
+			return d, 0
+		case 3:
+			return d, -1 - r.Intn(2)
 		}
 		if sh.mseq == 1 {
-			return 1
+			return d, 1
 		}
-		return 1 + r.Intn(sh.mseq-1) // possibly a token of another class
+		return d, 1 + r.Intn(sh.mseq-1) // possibly a token of another class
 	}
 	actor := func() int {
 		if r.Chance(1, 40) {
@@ -221,14 +230,14 @@ func gen(r *lib.Rand, tier, stream string, i int) History {
 	}
 	// owner of d with probability 3/4, else anyone
 	ownerish := func(d int) int {
-		if o, ok := sh.owner[d]; ok && r.Chance(3, 4) {
+		if o, ok := sh.owner[d]; ok && r.Chance(5, 6) {
 			return o
 		}
 		return actor()
 	}
 	// a holder of (d,m) with probability 4/5
 	holderish := func(d, m int) int {
-		if r.Chance(4, 5) {
+		if r.Chance(9, 10) {
 			var hs []int
 			for a := 0; a < nActors; a++ {
 				if sh.bal[[3]int{a, d, m}] > 0 {
@@ -242,7 +251,7 @@ func gen(r *lib.Rand, tier, stream string, i int) History {
 		return actor()
 	}
 	spendAmount := func(held uint64) uint64 {
-		switch r.Weighted(4, 3, 3, 2, 2, 1, 1) {
+		switch r.Weighted(5, 6, 2, 3, 1, 1) {
 		case 0:
 			return held // exactly everything (0 if nothing held: invalid amount)
 		case 1:
@@ -266,7 +275,7 @@ func gen(r *lib.Rand, tier, stream string, i int) History {
 	}
 	mintAmount := func(supply uint64) uint64 {
 		room := math.MaxUint64 - supply
-		switch r.Weighted(5, 4, 2, 3, 3, 2, 1, 1) {
+		switch r.Weighted(8, 6, 1, 3, 2, 2, 2) {
 		case 0:
 			return 1 + r.U64()%1000
 		case 1:
@@ -318,8 +327,7 @@ func gen(r *lib.Rand, tier, stream string, i int) History {
 			}
 			push(Step{K: "mint", S: ownerish(d), D: d, M: 0, A: u(mintAmount(0)), Dt: dt, R: rc})
 		case 2: // mint more of an existing token
-			d := pickD()
-			m := pickM(d)
+			d, m := pickToken()
 			rc := -1
 			if r.Chance(2, 3) {
 				rc = r.Intn(nActors)
@@ -330,11 +338,10 @@ func gen(r *lib.Rand, tier, stream string, i int) History {
 			}
 			push(Step{K: "mint", S: ownerish(d), D: d, M: m, A: u(mintAmount(sh.sup[[2]int{d, m}])), Dt: dt, R: rc})
 		case 3:
-			d := pickD()
-			push(Step{K: "edit", S: ownerish(d), D: d, M: pickM(d), Dt: r.Intn(len(strs))})
+			d, m := pickToken()
+			push(Step{K: "edit", S: ownerish(d), D: d, M: m, Dt: r.Intn(len(strs))})
 		case 4:
-			d := pickD()
-			m := pickM(d)
+			d, m := pickToken()
 			s := holderish(d, m)
 			rc := r.Intn(nActors)
 			if r.Chance(1, 6) {
@@ -349,8 +356,7 @@ func gen(r *lib.Rand, tier, stream string, i int) History {
 			}
 			push(Step{K: "transfer", S: s, D: d, M: m, A: u(spendAmount(held)), R: rc})
 		case 5:
-			d := pickD()
-			m := pickM(d)
+			d, m := pickToken()
 			s := holderish(d, m)
 			var held uint64
 			if s >= 0 {
